@@ -121,7 +121,6 @@ Proof. revert l. induction i as [|i IH]; intros [|h t]; cbn; try discriminate; a
 Lemma nth_upd_other {A} i j (x : A) l : i <> j -> nth_error (upd i x l) j = nth_error l j.
 Proof.
   revert j l. induction i as [|i IH]; intros [|j] [|h t] N; cbn; auto; try congruence.
-  apply IH. congruence.
 Qed.
 
 Lemma inv_action a c : Inv c -> Inv (do_action Fixed a c).
@@ -132,31 +131,33 @@ Proof.
     destruct (step Fixed l sh) as [l' sh'] eqn:Es. destruct A as [HG' HL'].
     cbn. split; [exact HG'|]. split.
     + intros j lj Ej. destruct (Nat.eq_dec i j) as [<-|N].
-      * rewrite (nth_upd_same i l' ls l Ei) in Ej. inversion Ej; subst. exact HL'.
+      * rewrite (nth_upd_same i l' ls l Ei) in Ej. injection Ej as <-. exact HL'.
       * rewrite (nth_upd_other i j l' ls N) in Ej.
         pose proof (other_step sh l lj HG (HL i l Ei) (HL j lj Ej) (HP i j l lj N Ei Ej)) as O. rewrite Es in O. apply O.
     + intros j k lj lk Njk Ej Ek.
       destruct (Nat.eq_dec i j) as [<-|Nij]; destruct (Nat.eq_dec i k) as [<-|Nik]; try congruence.
-      * rewrite (nth_upd_same i l' ls l Ei) in Ej. inversion Ej; subst.
+      * rewrite (nth_upd_same i l' ls l Ei) in Ej. injection Ej as <-.
         rewrite (nth_upd_other i k l' ls Nik) in Ek.
         pose proof (other_step sh l lk HG (HL i l Ei) (HL k lk Ek) (HP i k l lk Nik Ei Ek)) as O. rewrite Es in O. apply O.
-      * rewrite (nth_upd_same i l' ls l Ei) in Ek. inversion Ek; subst.
+      * rewrite (nth_upd_same i l' ls l Ei) in Ek. injection Ek as <-.
         rewrite (nth_upd_other i j l' ls Nij) in Ej. rewrite P_sym.
         pose proof (other_step sh l lj HG (HL i l Ei) (HL j lj Ej) (HP i j l lj Nij Ei Ej)) as O. rewrite Es in O. apply O.
-      * rewrite (nth_upd_other i j l' ls Nij) in Ej. rewrite (nth_upd_other i k l' ls Nik) in Ek. eapply HP; eauto.
+      * rewrite (nth_upd_other i j l' ls Nij) in Ej. rewrite (nth_upd_other i k l' ls Nik) in Ek.
+        exact (HP j k lj lk Njk Ej Ek).
   - destruct (nth_error ls i) as [l|] eqn:Ei; [|cbn; auto]. destruct (st l) eqn:Est; cbn; auto.
     split; [exact HG|]. split.
     + intros j lj Ej. destruct (Nat.eq_dec i j) as [<-|N].
-      * rewrite (nth_upd_same i _ ls l Ei) in Ej. inversion Ej; subst.
+      * rewrite (nth_upd_same i _ ls l Ei) in Ej. injection Ej as <-.
         apply (begin_ok sh m l (G_sh_ok sh HG) (L_loc_ok l sh (HL i l Ei))).
       * rewrite (nth_upd_other i j _ ls N) in Ej. eauto.
     + intros j k lj lk Njk Ej Ek.
       destruct (Nat.eq_dec i j) as [<-|Nij]; destruct (Nat.eq_dec i k) as [<-|Nik]; try congruence.
-      * rewrite (nth_upd_same i _ ls l Ei) in Ej. inversion Ej; subst. rewrite (nth_upd_other i k _ ls Nik) in Ek.
+      * rewrite (nth_upd_same i _ ls l Ei) in Ej. injection Ej as <-. rewrite (nth_upd_other i k _ ls Nik) in Ek.
         apply (begin_ok sh m lk (G_sh_ok sh HG) (L_loc_ok lk sh (HL k lk Ek))).
-      * rewrite (nth_upd_same i _ ls l Ei) in Ek. inversion Ek; subst. rewrite (nth_upd_other i j _ ls Nij) in Ej.
+      * rewrite (nth_upd_same i _ ls l Ei) in Ek. injection Ek as <-. rewrite (nth_upd_other i j _ ls Nij) in Ej.
         apply (begin_ok sh m lj (G_sh_ok sh HG) (L_loc_ok lj sh (HL j lj Ej))).
-      * rewrite (nth_upd_other i j _ ls Nij) in Ej. rewrite (nth_upd_other i k _ ls Nik) in Ek. eapply HP; eauto.
+      * rewrite (nth_upd_other i j _ ls Nij) in Ej. rewrite (nth_upd_other i k _ ls Nik) in Ek.
+        exact (HP j k lj lk Njk Ej Ek).
 Qed.
 
 Lemma inv_run sched : forall c, Inv c -> Inv (run Fixed sched c).
@@ -191,15 +192,82 @@ Proof.
     + apply eqb_prop. assumption.
 Qed.
 
-(** exactly once: when every thread is between calls and the recording is gone, it was handed over once *)
-Definition quiescent (ls : list local) : bool := forallb (fun l => match st l with Done => true | _ => false end) ls.
+(** ---- exactly once: the recording is never lost ----
+    At every moment the recording is still active, or some thread holds it (detached, not yet handed over),
+    or it has been handed to the cassette exactly once. *)
+Definition check_holder : bool :=
+  forallb (fun sh => forallb (fun l =>
+    implb (G sh && L l sh)
+          (let '(l', sh') := step Fixed l sh in
+           implb (ar sh) (ar sh' || pending l') &&
+           implb (pending l) (pending l' || Nat.eqb (fin sh') 1) &&
+           implb (Nat.eqb (fin sh) 1) (Nat.eqb (fin sh') 1))) all_local) all_shared.
+Lemma check_holder_ok : check_holder = true. Proof. vm_compute. reflexivity. Qed.
 
-Definition check_quiescent_local : bool :=
-  forallb (fun l => implb (match st l with Done => true | _ => false end) (negb (pending l))) all_local.
+Lemma holder_step sh l : G sh = true -> L l sh = true ->
+  let '(l', sh') := step Fixed l sh in
+  (ar sh = true -> ar sh' = true \/ pending l' = true) /\
+  (pending l = true -> pending l' = true \/ fin sh' = 1) /\
+  (fin sh = 1 -> fin sh' = 1).
+Proof.
+  intros HG HL. pose proof check_holder_ok as C. unfold check_holder in C.
+  rewrite forallb_forall in C. specialize (C sh (in_all_shared sh (G_sh_ok sh HG))).
+  rewrite forallb_forall in C. specialize (C l (in_all_local l (L_loc_ok l sh HL))).
+  rewrite HG, HL in C. cbn [andb implb] in C. destruct (step Fixed l sh) as [l' sh'].
+  apply andb_prop in C. destruct C as [C C3]. apply andb_prop in C. destruct C as [C1 C2].
+  repeat split.
+  - intros A. rewrite A in C1. cbn [implb] in C1. apply orb_prop in C1. exact C1.
+  - intros A. rewrite A in C2. cbn [implb] in C2. apply orb_prop in C2. destruct C2 as [C2|C2]; [left; exact C2|right; apply Nat.eqb_eq; exact C2].
+  - intros A. rewrite A in C3. cbn [Nat.eqb implb] in C3. apply Nat.eqb_eq. exact C3.
+Qed.
 
-(** the handed-over count is 1 as soon as nobody holds the recording any more: G2 *)
-Definition G2 (sh : shared) (anyone_pending : bool) : bool :=
-  ar sh || anyone_pending || Nat.eqb (fin sh) 1.
+Definition Held (c : config) : Prop :=
+  let '(sh, ls) := c in
+  ar sh = true \/ (exists i l, nth_error ls i = Some l /\ pending l = true) \/ fin sh = 1.
+
+Lemma held_action a c : Inv c -> Held c -> Held (do_action Fixed a c).
+Proof.
+  destruct c as [sh ls]. intros (HG & HL & HP) HH. destruct a as [i|i m]; cbn [do_action].
+  - destruct (nth_error ls i) as [l|] eqn:Ei; [|exact HH].
+    pose proof (holder_step sh l HG (HL i l Ei)) as S.
+    destruct (step Fixed l sh) as [l' sh'] eqn:Es. destruct S as (S1 & S2 & S3). cbn.
+    destruct HH as [A|[(j & lj & Ej & Pj)|F]].
+    + destruct (S1 A) as [A'|P']; [left; exact A'|].
+      right; left. exists i, l'. split; [apply (nth_upd_same i l' ls l Ei)|exact P'].
+    + destruct (Nat.eq_dec i j) as [<-|N].
+      * rewrite Ei in Ej. injection Ej as <-. destruct (S2 Pj) as [P'|F'].
+        -- right; left. exists i, l'. split; [apply (nth_upd_same i l' ls l Ei)|exact P'].
+        -- right; right. exact F'.
+      * right; left. exists j, lj. split; [rewrite (nth_upd_other i j l' ls N); exact Ej|exact Pj].
+    + right; right. exact (S3 F).
+  - destruct (nth_error ls i) as [l|] eqn:Ei; [|exact HH]. destruct (st l) eqn:Est; try exact HH. cbn.
+    destruct HH as [A|[(j & lj & Ej & Pj)|F]]; [left; exact A| |right; right; exact F].
+    right; left. exists j, lj. split; [|exact Pj].
+    destruct (Nat.eq_dec i j) as [<-|N]; [|rewrite (nth_upd_other i j _ ls N); exact Ej].
+    rewrite Ei in Ej. injection Ej as <-. unfold pending in Pj. rewrite Est in Pj. discriminate.
+Qed.
+
+Lemma held_run sched : forall c, Inv c -> Held c -> Held (run Fixed sched c).
+Proof.
+  unfold run. induction sched as [|a sched IH]; intros c HI HH; cbn [fold_left]; [exact HH|].
+  apply IH; [apply inv_action; exact HI|apply held_action; assumption].
+Qed.
+
+Definition quiescent (ls : list local) : Prop := forall l, In l ls -> st l = Done.
+
+(** the repaired code: for any number of threads and any schedule, once the recording is no longer active
+    and every thread is between calls, the recording has been handed to the cassette EXACTLY once
+    (with [fixed_safe]: never twice at any moment, and never lost) *)
+Theorem fixed_exactly_once n sched :
+  let '(sh, ls) := run Fixed sched (sh0, repeat idle_thread n) in
+  ar sh = false -> quiescent ls -> fin sh = 1.
+Proof.
+  pose proof (held_run sched _ (inv_init n)) as H.
+  assert (H0 : Held (sh0, repeat idle_thread n)) by (left; reflexivity). specialize (H H0).
+  destruct (run Fixed sched (sh0, repeat idle_thread n)) as [sh ls]. intros A Q.
+  destruct H as [A'|[(j & lj & Ej & Pj)|F]]; [congruence| |exact F].
+  apply nth_error_In in Ej. specialize (Q lj Ej). unfold pending in Pj. rewrite Q in Pj. discriminate.
+Qed.
 
 (** ---- the code before the repair ---- *)
 Definition two := [start MDiscard; start MDiscard].
@@ -207,18 +275,18 @@ Definition two := [start MDiscard; start MDiscard].
 (** two racing discards: the second one dies on the vanished recording (AttributeError into the service) *)
 Theorem legacy_discard_race_crashes :
   exists sched, let '(_, ls) := run Legacy sched (sh0, two) in existsb crashed ls = true.
-Proof. exists [AStep 0; AStep 1; AStep 1; AStep 1; AStep 1; AStep 0]. vm_compute. reflexivity. Qed.
+Proof. exists [AStep 0; AStep 1; AStep 1; AStep 1; AStep 1; AStep 1; AStep 0]. vm_compute. reflexivity. Qed.
 
 (** two racing discards: the recording is aborted twice *)
 Theorem legacy_double_finalisation :
   exists sched, let '(sh, _) := run Legacy sched (sh0, two) in fin sh = 2.
-Proof. exists [AStep 0; AStep 0; AStep 1; AStep 1; AStep 0; AStep 1]. vm_compute. reflexivity. Qed.
+Proof. exists [AStep 0; AStep 0; AStep 0; AStep 1; AStep 1; AStep 1; AStep 0; AStep 1]. vm_compute. reflexivity. Qed.
 
 (** a discard racing with force_sample_recording: the force flag outlives the recording (sticky forcing) *)
 Theorem legacy_force_outlives_recording :
   exists sched, let '(sh, _) := run Legacy sched (sh0, [start MForce; start MDiscard]) in ar sh = false /\ fs sh = true.
 Proof.
-  exists [AStep 0; AStep 0; AStep 0; AStep 1; AStep 1; AStep 1; AStep 1; AStep 1; AStep 1; AStep 0]. vm_compute. auto.
+  exists [AStep 0; AStep 0; AStep 0; AStep 1; AStep 1; AStep 1; AStep 1; AStep 1; AStep 1; AStep 1; AStep 0]. vm_compute. auto.
 Qed.
 
 (** a discard racing with record_data / an output capture / the end of the recording scope / current_recording_id *)
@@ -227,9 +295,9 @@ Theorem legacy_other_races_crash :
   exists sched, let '(_, ls) := run Legacy sched (sh0, [start m; start MDiscard]) in existsb crashed ls = true.
 Proof.
   intros m [<-|[<-|[<-|[<-|[]]]]].
-  - exists [AStep 0; AStep 1; AStep 1; AStep 1; AStep 1; AStep 0]. vm_compute. reflexivity.
-  - exists [AStep 0; AStep 1; AStep 1; AStep 1; AStep 1; AStep 1; AStep 0; AStep 0; AStep 0; AStep 0; AStep 0; AStep 0].
-    vm_compute. reflexivity.
   - exists [AStep 0; AStep 1; AStep 1; AStep 1; AStep 1; AStep 1; AStep 0]. vm_compute. reflexivity.
-  - exists [AStep 0; AStep 1; AStep 1; AStep 1; AStep 1; AStep 0]. vm_compute. reflexivity.
+  - exists [AStep 0; AStep 1; AStep 1; AStep 1; AStep 1; AStep 1; AStep 1; AStep 0; AStep 0; AStep 0; AStep 0; AStep 0; AStep 0; AStep 0].
+    vm_compute. reflexivity.
+  - exists [AStep 0; AStep 1; AStep 1; AStep 1; AStep 1; AStep 1; AStep 1; AStep 0]. vm_compute. reflexivity.
+  - exists [AStep 0; AStep 1; AStep 1; AStep 1; AStep 1; AStep 1; AStep 0]. vm_compute. reflexivity.
 Qed.
